@@ -163,6 +163,8 @@ def _limited(node, patch_):
         raise Exception("Array len member not found: %s %s" % (node.name, patch_))
 
     mem = node.members[i]
+    if not mem.size:
+        raise Exception("Field needs to be a fixed array: %s %s" % (node.name, patch_))
     mem.bound = len_array
     mem.optional = False
     return node
